@@ -15,6 +15,32 @@ class InlinePool:
         vals = [f(x) for x in xs]
         return SimpleNamespace(ready=lambda: True, get=lambda: vals)
 
+    def map(self, f, xs):
+        return [f(x) for x in xs]
+
+    def imap(self, f, xs):
+        return iter([f(x) for x in xs])
+
+    def uimap(self, f, xs):
+        # imap_unordered delivers in completion order: the reverse of the submission order is a legal schedule
+        return iter([f(x) for x in reversed(list(xs))])
+
+    def pipe(self, f, *a):
+        return f(*a)
+
+    def apipe(self, f, *a):
+        v = f(*a)
+        return SimpleNamespace(ready=lambda: True, get=lambda: v)
+
+    def close(self):
+        pass
+
+    def join(self):
+        pass
+
+    def clear(self):
+        pass
+
 
 class Pbar:
     def set_description(self, *a, **k):
